@@ -258,6 +258,19 @@ def m_arange(I, e, args, kws):
     else:
         out.shape = Shape([None])
     out.tags["arange"] = True
+    if len(args) == 1 and args[0].tag("pow2_of") is not None:
+        out.tags["pow2_range"] = args[0].tag("pow2_of")            # arange(2 ** n)
+        out.shp |= out.data
+        out.data = E
+        out.unit = ONE
+    if len(args) == 3 and all(a.known and a.const == -1 for a in args[1:]):
+        de = args[0].tag("dimexpr")                                 # arange(n - 1, -1, -1): n-1, …, 0
+        if de is not None and de[0] == "sub" and de[2].known and de[2].const == 1 and (as_dim(de[1]) is not None or de[1].tag("kind") == "int"):
+            out.tags["desc_range"] = de[1]
+            out.shape = Shape([as_dim(de[1])])
+            out.shp |= out.data
+            out.data = E
+            out.unit = ONE
     return out
 
 
